@@ -253,7 +253,9 @@ const EXPRCTX = [
   'y ||= @@', 'y ??= @@', 'o.p &&= @@', '(() => { lbl: { if (c) break lbl; return @@ } })()', '(() => { switch (a) { case @@: return 1; default: return @@ } })()',
   // class positions
   '(class { static [@@] = 1 })', '(class { static { y = @@ } })', 'new (class { constructor(p = @@) { this.p = p } })().p', '(class { static m(p = @@) { return p } }).m()', '({ get [@@]() { return 1 } })', '({ set p(v = @@) {} })', '({ async *m() { yield @@ } })',
-  'o.m?.(@@)', 'o?.[@@]', 'new X(@@)', 'new X(...(@@))'
+  'o.m?.(@@)', 'o?.[@@]', 'new X(@@)', 'new X(...(@@))',
+  // curried and nested concise arrows: the innermost body is reached only through the outer ones
+  '(q => r => @@)(a)(b)', '(() => () => () => @@)()()()', '(q => (r => @@))(a)(b)', '(q => r => ({ p: @@ }))(a)(b).p', '(async q => r => @@)(a)', '(q => function () { return r => @@ })(a)()(b)'
 ]
 const EXPRCTX_ASYNC = ['await (@@)', 'await @@', '(async () => @@)()', '(async () => await (@@))()', '(async (q) => (await q) + (@@))(a)']
 const EXPRCTX_GEN = ['yield (@@)', 'yield @@', 'yield* [@@]']
